@@ -927,4 +927,143 @@ theorem handleDpop_replay_refused (c : Sq) (st : Store) (r r2 : DpopReq) (hj : r
           simp only [hj, hlive]
           simp
 
+theorem s2sLoop_keeps_find_ne (c : Sq) (ns : List String) (k : Key) (hk : k.ns ≠ .mark .s2s) :
+    ∀ st, stFind (s2sLoop c st ns).2 k = stFind st k := by
+  induction ns with
+  | nil => intro st; rfl
+  | cons n rest ih =>
+    intro st
+    unfold s2sLoop
+    by_cases hn : n = ""
+    · simp [hn]
+    · simp only [hn, if_false]
+      unfold pifSeq
+      cases hg : stGet c.incl st c.now (s2sKey n) with
+      | some v => rfl
+      | none =>
+        simp only
+        rw [ih]
+        exact stFind_put_ne _ _ _ _ (by intro he; rw [he] at hk; exact hk rfl)
+
+theorem jtiKey_inj (a b : String) (h : jtiKey a = jtiKey b) : a = b := by
+  simp [jtiKey] at h; exact h
+
+/-- no request of any endpoint removes or replaces a live registration of a DPoP jti -/
+theorem handleForm_keeps_jti_live (c : Sq) (pk : Pkce) (st : Store) (f : Form) (j : String) (e : Entry) (hl : c.now < e.exp)
+    (h : stFind st (jtiKey j) = some e) : stFind (handleForm c pk st f).2 (jtiKey j) = some e := by
+  have hk1 : (jtiKey j).ns ≠ .burn .code := by simp [jtiKey]
+  have hk2 : (jtiKey j).ns ≠ .burn .vpNonce := by simp [jtiKey]
+  have hk3 : (jtiKey j).ns ≠ .mark .s2s := by simp [jtiKey]
+  cases f with
+  | token t =>
+    simp only [handleForm]
+    unfold handleToken
+    simp only
+    split
+    · rw [handleCode_keeps_find c pk st t _ hk1]; exact h
+    · split
+      · cases t.assertion with
+        | none => simpa using h
+        | some ns =>
+          simp only
+          split
+          · simpa using h
+          · rw [handleS2S_snd, s2sLoop_keeps_find_ne c ns _ hk3]; exact h
+      · split <;> simpa using h
+  | response r =>
+    simp only [handleForm]
+    unfold handleResponse
+    simp only
+    cases r.state with
+    | none => simpa using h
+    | some state =>
+      cases r.vpToken with
+      | none => simpa using h
+      | some ps =>
+        cases ps with
+        | nil => simpa using h
+        | cons p ps =>
+          simp only
+          split
+          · simpa using h
+          · split
+            · simpa using h
+            · rw [validateNonce_keeps_find c st (p :: ps) state _ hk2]; exact h
+  | reqObj r =>
+    simp only [handleForm]
+    rw [handleReqObj_snd, gadSeq_keeps_find c st _ _ (by simp [jtiKey, reqObjKey])]; exact h
+  | landing t =>
+    simp only [handleForm]
+    by_cases ht : t = ""
+    · unfold handleLanding; simp [ht, h]
+    · rw [handleLanding_snd c st t ht, gadSeq_keeps_find c st _ _ (by simp [jtiKey, redirectKey])]; exact h
+  | dpop r =>
+    simp only [handleForm]
+    unfold handleDpop
+    split
+    · simpa using h
+    · split
+      · simpa using h
+      · split
+        · simpa using h
+        · split
+          · simpa using h
+          · unfold pifSeq
+            cases hg : stGet c.incl st c.now (jtiKey r.jti) with
+            | some v => simpa using h
+            | none =>
+              simp only
+              have hne : jtiKey j ≠ jtiKey r.jti := by
+                intro he; rw [he] at h; rw [stGet_of_find_live c.incl st c.now _ e h hl] at hg; cases hg
+              rw [stFind_put_ne _ _ _ _ hne]; exact h
+
+theorem runForms_keeps_jti_live (incl : Bool) (ttl : Kind → Nat) (pk : Pkce) (j : String) (e : Entry) (fs : List (Nat × Form)) :
+    ∀ now st, stFind st (jtiKey j) = some e → (runForms incl ttl pk now st fs).2.2 < e.exp →
+      stFind (runForms incl ttl pk now st fs).2.1 (jtiKey j) = some e := by
+  induction fs with
+  | nil => intro now st h _; simpa [runForms] using h
+  | cons x rest ih =>
+    intro now st h hend
+    obtain ⟨dt, f⟩ := x
+    simp only [runForms] at hend ⊢
+    have hge := runForms_time_ge incl ttl pk rest (now + dt) (handleForm ⟨incl, now + dt, ttl⟩ pk st f).2
+    apply ih _ _ _ hend
+    exact handleForm_keeps_jti_live ⟨incl, now + dt, ttl⟩ pk st f j e (by show now + dt < e.exp; omega) h
+
+/-- an accepted proof registers its jti until now + ttl -/
+theorem handleDpop_ok_find (c : Sq) (st : Store) (r : DpopReq) (hok : (handleDpop c st r).1 = .ok) :
+    stFind (handleDpop c st r).2 (jtiKey r.jti) = some ⟨markVal .jti, c.now + c.ttl (.mark .jti)⟩ := by
+  unfold handleDpop at hok ⊢
+  split
+  · rename_i h; simp [h] at hok
+  · split
+    · rename_i h1 h; simp [h1, h] at hok
+    · split
+      · rename_i h1 h2 h; simp [h1, h2, h] at hok
+      · split
+        · rename_i h1 h2 h3 h; simp [h1, h2, h3, h] at hok
+        · rename_i h1 h2 h3 h4
+          simp only [h1, h2, h3, h4, if_false] at hok
+          unfold pifSeq at hok ⊢
+          cases hg : stGet c.incl st c.now (jtiKey r.jti) with
+          | some v => simp [hg] at hok
+          | none => exact stFind_put_self _ _ _
+
+/-- a proof whose jti is registered and alive is refused -/
+theorem handleDpop_refuses_used (c : Sq) (st : Store) (r : DpopReq) (h : stGet c.incl st c.now (jtiKey r.jti) ≠ none) :
+    (handleDpop c st r).1 ≠ .ok := by
+  unfold handleDpop
+  split
+  · simp
+  · split
+    · simp
+    · split
+      · simp
+      · split
+        · simp
+        · unfold pifSeq
+          cases hg : stGet c.incl st c.now (jtiKey r.jti) with
+          | some v => simp
+          | none => exact absurd hg h
+
 end Nuts.C05
